@@ -525,6 +525,8 @@ fn prepare_field_for_flight(
                 .unzip();
 
             Field::new_union(field.name(), type_ids, new_fields, *mode)
+                .with_nullable(field.is_nullable())
+                .with_metadata(field.metadata().clone())
         }
         DataType::Dictionary(_, value_type) => {
             if !send_dictionaries {
